@@ -43,6 +43,7 @@ type Options struct {
 	RecordTrace bool
 	MaxSteps    int
 	BagNetwork  bool // the spec's unordered bag instead of per-link FIFO
+	Small       bool // at most 3 servers and 2 clients (C02: TLC evaluates every step)
 }
 
 func S(s string) tla.Value { return tla.MakeString(s) }
@@ -51,6 +52,14 @@ func Run(w *sim.World, opt Options) *Outcome {
 	out := &Outcome{Probes: map[string]int{}}
 	n := 1 + w.Choose(sim.KCfg, 5)
 	c := 1 + w.Choose(sim.KCfg, 3)
+	if opt.Small {
+		if n > 3 {
+			n = 3
+		}
+		if c > 2 {
+			c = 2
+		}
+	}
 	maxFail := 0
 	explore := w.Choose(sim.KCfg, 2) == 1 && n >= 3
 	if explore {
@@ -58,9 +67,25 @@ func Run(w *sim.World, opt Options) *Outcome {
 	}
 	buf := 2 + w.Choose(sim.KCfg, 5)
 	nOps := 1 + w.Choose(sim.KCfg, 6)
+	if opt.Small {
+		// few distinct constant combinations, so that traces share TLC runs
+		buf = []int{2, 4}[w.Choose(sim.KCfg, 2)]
+		if nOps > 4 {
+			nOps = 4
+		}
+		if maxFail > 1 {
+			maxFail = 1
+		}
+	}
 	keys := []string{"k1", "k2"}[:1+w.Choose(sim.KCfg, 2)]
 	strings := append([]string{}, keys...)
-	for i := 0; i < nOps*c; i++ {
+	nv := nOps * c
+	if opt.Small {
+		keys = []string{"k1", "k2"}[:len(keys)]
+		strings = []string{"k1", "k2"}
+		nv = 8
+	}
+	for i := 0; i < nv; i++ {
 		strings = append(strings, fmt.Sprintf("v%d", i))
 	}
 	wd := env.NewWorld(w)
